@@ -18,7 +18,10 @@ The property is the composition   parse (cook (between-back-ticks (module))) = s
 Proved here, for ALL inputs: the template layer (`template_roundtrip`, `template_no_break`, with the bridge
 `printString_no_cr`), the quoted string-literal layer (`print_string_roundtrip_partial`), the stripping layer
 (`strip_exact`, `strip_model_exact`) and the Type sub-language at token level (`print_tokens_type`,
-`C16_roundtrip_partial`). What is NOT proved is listed in the OPEN blocks and is carried by K/O only.
+`C16_roundtrip_partial`), Value, Directive and the token streams of executable definitions. Whole documents (token streams
+of type-system definitions, parse-back of every definition, the block form under indentation, the composition
+`C16_roundtrip_tokens_*`) are in `Props/C16Tokens.lean`; the character level (`C16_roundtrip_text_*`) is in `Props/C16Text.lean`. What is NOT proved is listed in the OPEN blocks and is carried by
+K/O only.
 -/
 namespace NitroVerif.C16
 open NitroVerif.Gql NitroVerif.JsTemplate NitroVerif.Cook NitroVerif.GqlPrint NitroVerif.GqlString
@@ -420,14 +423,23 @@ theorem print_tokens_fragment (f : FragmentDef) : (printFragment f).flatMap lex 
   toks_fragment f
 
 /-
+CONTINUED in `Props/C16Tokens.lean` (proved there, for all inputs):
+  * `print_tokens_*` for every type-system definition / extension / document (`…_partial` for type definitions:
+    a union without members is printed with a dangling `=` — counterexample kept);
+  * token-level parse-back (`C16_parse_*`) for selections, selection sets, variable definitions, operations, fragments,
+    executable documents, type definitions / extensions, schema definitions / extensions, directive definitions and
+    type-system documents;
+  * the indentation-stable block form (`print_block_lexes_indented`, `print_string_written_exact`);
+  * the composition `C16_roundtrip_tokens_exec` / `_ts` / `_tsext`, `server_module_roundtrip_tokens`.
+and in `Props/C16Text.lean`:
+  * the character level: `lex_written_text` (lexing what the writer wrote), `printer_lexable_*` (the printer always
+    separates its tokens), `C16_roundtrip_text_exec` / `_ts` / `_tsext`, `server_module_roundtrip_text` (cook, lex, parse).
+
 OPEN — carried by K/O only (never claimed as proved)
-  * `print_tokens` for type-system definitions, and the token-level parse-back for selections / operations /
-    fragments / type-system definitions (parse-back is proved for Type, Value and Directive — the leaves every
-    definition is built from; token streams are proved for all executable definitions).
-  * the indentation-stable version of `print_block_lexes` (the writer indents the continuation lines of a block
-    string by the current indentation; `BlockStringValue` removes it again when some continuation line is not blank).
-  * the composition `parse (cook (serverModule …)) = stripDirective … d` over a parser model (C07's PEG model):
-    O evaluates it on the real parser for generated schemas; K ties every model in this file to the code.
+  * the composition `parse (cook (serverModule …)) = stripDirective … d` over nitrogql's own parser (C07's PEG model)
+    instead of the specification's lexer and parser: O evaluates it on the real parser for generated schemas; K ties
+    every model in this file to the code.
+  * `#import` lines of executable documents (comments for GraphQL).
 -/
 
 end NitroVerif.C16
